@@ -402,7 +402,10 @@ theorem concatenate_noalign_eq {α : Type} (nan : α) (a0 : DimArray α) (rest t
     have hp : ¬ ((pos : Int) < 0 || (pos : Int) ≥ (a0.ndim : Int)) = true := by
       simp only [Bool.or_eq_true, decide_eq_true_eq, not_or]
       omega
-    simp only [hp, if_false, Int.toNat_natCast, bind, Except.bind, pure, Except.pure, Bool.false_eq_true, hre,
+    have hneg : ¬ ((pos : Int) < 0) := by omega
+    have hge : ¬ ((pos : Int) ≥ (a0.ndim : Int)) := by
+      simp only [Bool.or_eq_true, decide_eq_true_eq, not_or] at hp; exact hp.2
+    simp only [hneg, hge, decide_false, Bool.or_self, if_false, Int.toNat_natCast, bind, Except.bind, pure, Except.pure, Bool.false_eq_true, hre,
       List.headD_cons, Bool.not_false, Bool.true_and, concatVals, List.map_cons, List.map_id',
       take_eraseIdx_append _ _ _ hlt, concatResult]
     rfl
@@ -1444,7 +1447,10 @@ theorem concatenate_align_eq {α : Type} (nan : α) (a0 : DimArray α) (rest arr
     have hp : ¬ ((pos : Int) < 0 || (pos : Int) ≥ (a0.ndim : Int)) = true := by
       simp only [Bool.or_eq_true, decide_eq_true_eq, not_or]
       omega
-    simp only [hp, if_false, Int.toNat_natCast, bind, Except.bind, pure, Except.pure, hloop', hre,
+    have hneg : ¬ ((pos : Int) < 0) := by omega
+    have hge : ¬ ((pos : Int) ≥ (a0.ndim : Int)) := by
+      simp only [Bool.or_eq_true, decide_eq_true_eq, not_or] at hp; exact hp.2
+    simp only [hneg, hge, decide_false, Bool.or_self, if_false, Int.toNat_natCast, bind, Except.bind, pure, Except.pure, hloop', hre,
       List.headD_cons, Bool.not_true, Bool.false_and, Bool.false_eq_true, concatVals, List.map_cons,
       List.map_id', take_eraseIdx_append _ _ _ hlt', concatResult, hd]
     rfl
